@@ -55,6 +55,12 @@ def make_images(ctx, gen, comps):
         "e/zero.bin": b"\0" * (5 * 8192),
         "e/empty": b"",
         "e/hole.bin": b"Q" * 8192 + b"\0" * 8192 + b"R" * 300,
+        # exactly one full block; a short file forced into a data block of its own (sort file: dont_fragment), so that
+        # reading it leaves a *short* block in the block cache; two more files that share the fragment block
+        "full.bin": bytes((i * 7 + 3) % 251 + 1 for i in range(8192)),
+        "short.bin": bytes((i * 5 + 11) % 251 + 1 for i in range(100)),
+        "frag2.bin": bytes((i * 3 + 29) % 251 + 1 for i in range(3000)),
+        "frag3.bin": bytes((i * 11 + 1) % 251 + 1 for i in range(2500)),
     }
     for k, v in files.items():
         (tree / k).write_bytes(v)
@@ -67,11 +73,12 @@ def make_images(ctx, gen, comps):
         '# file: small.txt\nuser.a="hello"\nuser.b=0x0102030405\n\n# file: big.bin\nuser.a="hello"\nuser.b=0x0102030405\n\n'
         '# file: d1\nuser.comment="dir one"\nsecurity.selinux="system_u:object_r:x:s0"\n\n'
         '# file: e/zero.bin\nuser.long=0x' + "000102030405060708090a0b0c0d0e0f" * 20 + "\n")
+    (d / "sort.txt").write_text("0 [dont_fragment] short.bin\n")
     env = ctx.san_env()
     imgs = {}
     for c in comps:
         p = d / ("img_%s.sqfs" % c)
-        rr = vlib.sh([str(gen), "-c", c, "-b", "8192", "-F", str(d / "pack.txt"), "-D", str(d), "-A", str(d / "xa.txt"), "-f", "-q", str(p)], env=env, timeout=120)
+        rr = vlib.sh([str(gen), "-c", c, "-b", "8192", "-F", str(d / "pack.txt"), "-D", str(d), "-A", str(d / "xa.txt"), "-S", str(d / "sort.txt"), "-f", "-q", str(p)], env=env, timeout=120)
         if rr.returncode != 0:
             raise vlib.CheckFailure("gensquashfs (working tree) failed for %s: %s" % (c, rr.stderr[-800:]))
         imgs[c] = p
@@ -94,7 +101,16 @@ def make_images(ctx, gen, comps):
 
 
 # --------------------------------------------------------------------------------------------- generators
-PATHS_F = ["/small.txt", "/big.bin", "/d1/mid.bin", "/d1/d2/tail.bin", "/e/zero.bin", "/e/empty", "/e/hole.bin"]
+PATHS_F = ["/small.txt", "/big.bin", "/d1/mid.bin", "/d1/d2/tail.bin", "/e/zero.bin", "/e/empty", "/e/hole.bin", "/full.bin", "/short.bin",
+           "/frag2.bin", "/frag3.bin"]
+# histories that leave "fragment block cached, data-block cache empty or short" behind (what a copy of the caches must get right)
+CACHE_ENDINGS = {
+    "fragment-only": ["frag /frag2.bin"],
+    "fragment-only-read": ["read /small.txt 0 60"],
+    "short-then-fragment": ["read /short.bin 0 100", "read /frag2.bin 0 10"],
+    "fragment-full-short": ["read /frag3.bin 100 50", "read /full.bin 0 8192", "read /short.bin 10 50"],
+    "full-then-fragment": ["read /full.bin 0 100", "frag /frag3.bin"],
+}
 PATHS_D = ["/", "/d1", "/d1/d2", "/e", "/nope", "/small.txt"]
 
 
@@ -148,6 +164,25 @@ def gen_xwr_ops(r, nblocks):
     return out
 
 
+def gen_xwr_shared(r):
+    """recording sequences with values shared between keys and sets (long: stored out of line by flush when used twice;
+    short: never), duplicate sets, and a flush"""
+    longs = [b"L" * 9, b"long value " * 3, bytes(range(1, 40))]
+    shorts = [b"12345678", b"s", b""]
+    keys = [b"user.a", b"user.b", b"user.ccc", b"trusted.x", b"security.selinux"]
+    out = []
+    for _ in range(r.randint(2, 4)):
+        out.append("begin")
+        v = r.choice(longs + shorts)
+        for k in r.sample(keys, r.randint(1, 3)):
+            out.append("add %s %s" % (hexs(k), hexs(v if r.random() < 0.8 else r.choice(longs + shorts))))
+        out.append("end")
+        if r.random() < 0.3:        # the same set again
+            n = len(out) - 1 - out[::-1].index("begin")
+            out += out[n:]
+    return out
+
+
 class Scenario:
     def __init__(self, tag, kind, args, model_kind):
         self.tag, self.kind, self.args, self.model_kind = tag, kind, args, model_kind
@@ -174,6 +209,7 @@ class Scenario:
 def gen_scenario(ctx, tag, kind, imgs, sizes, variant=None):
     r = ctx.rng
     damaged = variant == "damaged"
+    ending = None
     if kind == "comp":
         name = variant or r.choice(COMPS)
         args, mk = "comp %s %s" % (name, r.choice("cu")), name
@@ -181,9 +217,14 @@ def gen_scenario(ctx, tag, kind, imgs, sizes, variant=None):
         args, mk = kind, kind
     elif kind == "xwr":
         args, mk = "xwr %s" % ctx.scratch, "xwr"
+        if variant is None and r.random() < 0.4:
+            variant = "shared"
     elif kind == "file":
         args, mk = "file %s" % imgs["gzip"], "file"
     else:
+        ending = None
+        if kind == "data" and variant and variant.startswith("cache:"):
+            ending, variant = variant.split(":")[1], variant.split(":")[2]
         img = imgs["damaged"] if damaged else imgs[variant or "gzip"]
         args = "%s %s" % (kind, img) + (" %d" % r.choice([0, 1]) if kind == "dir" else "")
         mk = kind
@@ -192,7 +233,7 @@ def gen_scenario(ctx, tag, kind, imgs, sizes, variant=None):
 
     def hist_ops(n):
         if kind == "xwr":
-            return gen_xwr_ops(r, n)
+            return gen_xwr_shared(r) if variant == "shared" else gen_xwr_ops(r, n)
         if damaged:
             return ["read /f.bin 0 1000"] + ["read /f.bin %d %d" % (r.randint(0, 90), r.randint(1, 3000)) for _ in range(n)]
         return [gen_op(r, kind, sizes) for _ in range(n)]
@@ -203,6 +244,11 @@ def gen_scenario(ctx, tag, kind, imgs, sizes, variant=None):
         i = s.op("o", op)
         j = s.op("t1", op); k = s.op("t2", op)
         s.pairs += [(i, j), (i, k)]
+    if kind == "data" and not damaged and ending:
+        for op in CACHE_ENDINGS[ending]:
+            i = s.op("o", op)
+            j = s.op("t1", op); k = s.op("t2", op)
+            s.pairs += [(i, j), (i, k)]
     # the user may hold more than one reference
     extra = {"o": 0, "c": 0}
     if r.random() < 0.25:
@@ -215,7 +261,19 @@ def gen_scenario(ctx, tag, kind, imgs, sizes, variant=None):
         s.ctl("grab c"); extra["c"] += 1
     alive = {"o": True, "c": True}
     env_dropped = False
+    if kind == "xwr":
+        # same recorded state: original, copy and twins must flush the same bytes
+        i = s.op("o", "flush"); j = s.op("c", "flush"); k = s.op("t1", "flush"); l = s.op("t2", "flush")
+        s.pairs += [(i, j), (i, k), (j, l)]
+    if kind == "data" and not damaged and ending:
+        # every file read completely through both objects (and their twins)
+        for pth in PATHS_F:
+            for t, tw in (("c", "t2"), ("o", "t1")):
+                i = s.op(t, "read %s 0 40000" % pth); j = s.op(tw, "read %s 0 40000" % pth)
+                s.pairs.append((i, j))
     post = hist_ops(r.choice([1, 3, 6, 12]))
+    if kind == "xwr":
+        post = post + ["flush"] * 2
     # events: operations and releases, interleaved; both release orders arise from the shuffle
     events = [("op", x) for x in post] + [("drop", "o"), ("drop", "c")] + ([("env", None)] if kind in ENV_KINDS and r.random() < 0.5 else [])
     if r.random() < 0.7:
@@ -436,7 +494,8 @@ def judge(ctx, s, hres, var, stats):
         return ("precopy:%s" % s.kind, "misbehaviour before the copy (not a C19 matter: harness or twin problem?): " + how + tail, True)
     if ph is not None and ph != pm:
         if ph != pc:
-            return ("corr:%s" % s.kind, "%s: the probe of a fresh copy matches neither hook description (real `%s`, repaired `%s`, current `%s`)" % (s.kind, ph, pm, pc) + tail, misbehaves)
+            return ("corr:%s" % s.kind, "%s: the probe of a fresh copy matches neither hook description (real `%s`, repaired `%s`, current `%s`)%s" % (
+                s.kind, ph, pm, pc, ("; and " + how) if misbehaves else "") + tail, misbehaves)
         # the copy has the defect facts of the current hook description
         if not misbehaves:
             return ("%s:probe" % s.kind, "%s: fresh copy is not well-formed: probe `%s`, a well-formed copy has `%s`" % (s.kind, ph, pm) + tail, True)
@@ -562,6 +621,10 @@ def run(ctx):
         for c in comps:
             plan += [(kind, c)] * max(3, per_kind // len(comps))
     plan += [("xattr", "noxattr")] * 3 + [("data", "damaged")] * (4 if ctx.quick() else 20)
+    for e in CACHE_ENDINGS:
+        for c in comps:
+            plan += [("data", "cache:%s:%s" % (e, c))] * (1 if ctx.quick() else 6)
+    plan += [("xwr", "shared")] * (6 if ctx.quick() else 80)
     # corpus first
     cdir = vlib.CORPUS / "C19"
     corpus = []
@@ -611,7 +674,9 @@ def run(ctx):
         if v:
             key, what, found = v
             stats["findings"][key] = stats["findings"].get(key, 0) + 1
-            if stats["findings"][key] <= 2 or ctx.known_finding(key) is None and stats["findings"][key] <= 4:
+            fk = key + ("+" if found else "-")
+            stats.setdefault("reported", {})[fk] = stats.setdefault("reported", {}).get(fk, 0) + 1
+            if stats["reported"][fk] <= 2:
                 ctx.violation(key, what, replay_dict(ctx, s, hr), found_input=found)
     # tables: exact answers
     tscs = run_tables(ctx, harness, 30 if ctx.quick() else 1500)
